@@ -68,12 +68,13 @@ def finite_scope(text, k):
     return text.replace("(check-sat)", "(check-sat)\n(get-model)")
 
 
-def run_finite(text, kmax=4):
-    for k in range(1, kmax + 1):
-        r, out, dt = _run([Z3_BIN, "-smt2", "-in", f"-T:{FIN_T}"], finite_scope(text, k), FIN_T)
-        if r == "sat":
-            return "sat", k, out
-    return "unknown", None, ""
+def run_finite(text, kmax=4, kmin=1):
+    from .finite import refute_finite
+
+    k, out = refute_finite(text, kmax=kmax, timeout_s=FIN_T, kmin=kmin)
+    if k is not None:
+        return "sat", k, out
+    return "unknown", None, out
 
 
 _cache = None
